@@ -74,7 +74,9 @@ def build_menu():
     ev = []
     for fi in range(len(F0)):
         ev.append(('new', fi, 'hi'))
-    ev.append(('new', 0, 'lo'))
+    for fi in range(len(F0)):
+        if F0[fi].signed:
+            ev.append(('new', fi, 'lo'))        # a negative second object for every signed format (sources of indexed writes, operands)
     for rt in ('set_val', 'call', 'setitem'):
         for cls in ('exact', 'inexact', 'over', 'under', 'huge'):
             ev.append(('set', rt, cls))
